@@ -26,32 +26,34 @@ import (
 
 type rename struct {
 	file, recv, name, to string
+	pkg string // package directory below GOROOT/src ("" = os)
 }
 
 var osRenames = []rename{
-	{"file.go", "File", "Read", "dsimRealRead"},
-	{"file.go", "File", "ReadAt", "dsimRealReadAt"},
-	{"file.go", "File", "ReadFrom", "dsimRealReadFrom"},
-	{"file.go", "File", "Write", "dsimRealWrite"},
-	{"file.go", "File", "WriteAt", "dsimRealWriteAt"},
-	{"file.go", "File", "WriteTo", "dsimRealWriteTo"},
-	{"file.go", "", "Mkdir", "dsimRealMkdir"},
-	{"file.go", "", "OpenFile", "dsimRealOpenFile"},
-	{"file.go", "", "Rename", "dsimRealRename"},
-	{"file_posix.go", "File", "Close", "dsimRealClose"},
-	{"file_posix.go", "File", "Truncate", "dsimRealTruncate"},
-	{"file_posix.go", "File", "Sync", "dsimRealSync"},
-	{"file_posix.go", "", "Chtimes", "dsimRealChtimes"},
-	{"file_unix.go", "", "Truncate", "dsimRealTruncate"},
-	{"file_unix.go", "", "Remove", "dsimRealRemove"},
-	{"file_unix.go", "", "Link", "dsimRealLink"},
-	{"stat.go", "", "Stat", "dsimRealStat"},
-	{"stat.go", "", "Lstat", "dsimRealLstat"},
-	{"stat_unix.go", "File", "Stat", "dsimRealStat"},
-	{"dir.go", "", "ReadDir", "dsimRealReadDir"},
-	{"path.go", "", "RemoveAll", "dsimRealRemoveAll"},
-	{"tempfile.go", "", "nextRandom", "dsimRealnextRandom"},
-	{"root.go", "Root", "OpenFile", "dsimRealOpenFile"},
+	{"file.go", "File", "Read", "dsimRealRead", ""},
+	{"file.go", "File", "ReadAt", "dsimRealReadAt", ""},
+	{"file.go", "File", "ReadFrom", "dsimRealReadFrom", ""},
+	{"file.go", "File", "Write", "dsimRealWrite", ""},
+	{"file.go", "File", "WriteAt", "dsimRealWriteAt", ""},
+	{"file.go", "File", "WriteTo", "dsimRealWriteTo", ""},
+	{"file.go", "", "Mkdir", "dsimRealMkdir", ""},
+	{"file.go", "", "OpenFile", "dsimRealOpenFile", ""},
+	{"file.go", "", "Rename", "dsimRealRename", ""},
+	{"file_posix.go", "File", "Close", "dsimRealClose", ""},
+	{"file_posix.go", "File", "Truncate", "dsimRealTruncate", ""},
+	{"file_posix.go", "File", "Sync", "dsimRealSync", ""},
+	{"file_posix.go", "", "Chtimes", "dsimRealChtimes", ""},
+	{"file_unix.go", "", "Truncate", "dsimRealTruncate", ""},
+	{"file_unix.go", "", "Remove", "dsimRealRemove", ""},
+	{"file_unix.go", "", "Link", "dsimRealLink", ""},
+	{"stat.go", "", "Stat", "dsimRealStat", ""},
+	{"stat.go", "", "Lstat", "dsimRealLstat", ""},
+	{"stat_unix.go", "File", "Stat", "dsimRealStat", ""},
+	{"dir.go", "", "ReadDir", "dsimRealReadDir", ""},
+	{"path.go", "", "RemoveAll", "dsimRealRemoveAll", ""},
+	{"tempfile.go", "", "nextRandom", "dsimRealnextRandom", ""},
+	{"root.go", "Root", "OpenFile", "dsimRealOpenFile", ""},
+	{"zsyscall_linux_amd64.go", "", "Flock", "dsimRealFlock", "syscall"},
 }
 
 // textRewrite is a regexp rewrite of one repo file. min is the number of matches required.
@@ -96,7 +98,11 @@ func main() {
 	osDir := filepath.Join(*goroot, "src", "os")
 	byFile := map[string][]rename{}
 	for _, r := range osRenames {
-		byFile[r.file] = append(byFile[r.file], r)
+		k := r.file
+		if r.pkg != "" {
+			k = "../" + r.pkg + "/" + r.file
+		}
+		byFile[k] = append(byFile[k], r)
 	}
 	files := make([]string, 0, len(byFile))
 	for f := range byFile {
@@ -113,7 +119,8 @@ func main() {
 		if err != nil {
 			die("%v", err)
 		}
-		dst := filepath.Join(*out, "os_"+f+".txt")
+		src = filepath.Clean(src)
+		dst := filepath.Join(*out, "os_"+strings.ReplaceAll(strings.TrimPrefix(f, "../"), "/", "_")+".txt")
 		writeIfChanged(dst, nb)
 		replace[src] = dst
 	}
@@ -124,6 +131,14 @@ func main() {
 	dst := filepath.Join(*out, "os_zz_dsim.go.txt")
 	writeIfChanged(dst, zz)
 	replace[filepath.Join(osDir, "zz_dsim.go")] = dst
+
+	sz, err := os.ReadFile(filepath.Join(*patch, "syscall_zz_dsim.go.txt"))
+	if err != nil {
+		die("%v", err)
+	}
+	dst = filepath.Join(*out, "syscall_zz_dsim.go.txt")
+	writeIfChanged(dst, sz)
+	replace[filepath.Join(*goroot, "src", "syscall", "zz_dsim.go")] = dst
 
 	rz, err := os.ReadFile(filepath.Join(*patch, "runtime_zz_dsim.go.txt"))
 	if err != nil {
